@@ -2,14 +2,19 @@
 # tools/seeded_matrix.sh [ids...]  -- applies every kept seeded change to a scratch worktree of /repo HEAD and runs
 # the QUICK tier of the check(s) named for it; writes seeded/MATRIX.md (id, check, verdict, violating classes).
 cd "$(dirname "$0")/.."
-declare -A ALT=( [C11-c]="C10 C11" [C11-e]="C10" [C13-d]="C19" [C06-c]="C09" [C04-c]="C15" [C01-e]="C11" [C16-e]="C03" [C01-g]="C15 C11" [C11-g]="C09" [C18-g]="C18 C19" [C04-h]="C15" [C06-h]="C06 C09" )
+declare -A ALT=( [C11-c]="C10 C11" [C11-e]="C10" [C13-d]="C19" [C06-c]="C09" [C04-c]="C15" [C01-e]="C11" [C16-e]="C03" [C01-g]="C15 C11" [C11-g]="C09" [C18-g]="C18 C19" [C04-h]="C15" [C06-h]="C06 C09" [C03-i]="C03 C15" )
 OUT=seeded/MATRIX.md
+# MATRIX_APPEND=1 tools/seeded_matrix.sh <ids...>: add rows for these ids to the existing file
+if [ -n "${MATRIX_APPEND:-}" ]; then
+  grep -v "^exit 1 = \|^$" $OUT > $OUT.tmp; mv $OUT.tmp $OUT
+else
 {
 echo "# Detection matrix (quick tier, seed 1) at /repo $(git -C /repo rev-parse --short HEAD), /verif $(git rev-parse --short HEAD)"
 echo
 echo "| change | check | exit | violating classes (runs) |"
 echo "|---|---|---|---|"
 } > $OUT
+fi
 ids="$@"; [ -z "$ids" ] && ids=$(ls seeded | grep -v "\.md$")
 for id in $ids; do
   d=seeded/$id; [ -d "$d" ] || continue
